@@ -252,7 +252,7 @@ func (c *Ctx) symRun(fn *ssa.Function, as []atomAssume, follow func(*ssa.Functio
 			}
 		}
 	}
-	w.OnReturn = func(call *ssa.Call, ret *ssa.Return, st PathState) {
+	w.OnReturn = func(call *ssa.Call, ret *ssa.Return, st PathState, _ map[*ssa.Phi]ssa.Value) {
 		s := st.(*symState)
 		if len(ret.Results) == 1 && isByteSlice(ret.Results[0].Type()) {
 			if sv, ok := s.resolve(ret.Results[0], nil); ok {
